@@ -1,5 +1,9 @@
 import GoPlugin.Model.Handshake
+import GoPlugin.Model.LogLine
+import GoPlugin.Model.Scanner
 /- REGENERATED from the go-plugin source on every run by /verif/extract — do not edit. -/
 namespace GoPlugin.Facts
 def handshake : Handshake.Params := ⟨true, true, 4, 50, 1⟩
+def logline : LogLine.Params := ⟨false, 65536⟩
+def drain : Scanner.DrainParams := ⟨65536, true, false⟩
 end GoPlugin.Facts
